@@ -150,8 +150,8 @@ pub fn property() -> Property {
         subchecks: vec![SubCheck {
             name: "converted-map-wellformed",
             rule: "osu G-MAP (all object mixes, 1/5 with adversarial numeric corners, slider lengths/repeats incl. the short-slider->hit-burst regime, time-tagged hit sounds on circles/spinners, node sounds, SV changes, versions <8 and >=8) x target taiko/catch/mania x key mods 1K-10K in every representation. Oracle: mode==target, is_convert; hit_objects non-decreasing; durations finite >= 0; the three control-point vectors strictly increasing (total_cmp); taiko: one sound per object, no hold notes, every source circle/spinner with a unique start time keeps its tagged sound; mania: cs == key-mod value else an integer in 4..=7, only notes/hold notes, 0<=x<512 and floor(x/(512/K))<=K-1 without the library's clamp; catch: objects, sounds and control points == source. Non-trivial: >=5 source objects and (a slider split into hits or a mania convert with a key mod).",
-            quick: 60_000,
-            thorough: 300_000,
+            quick: 300_000,
+            thorough: 3_000_000,
             tape_len: 1500,
             f: case,
             direct: None,
